@@ -1563,6 +1563,10 @@ class Engine:
     def is_symkey(self, k):
         if isinstance(k, Str):
             return True
+        if isinstance(k, Bytes):
+            if k.mutable or k.kind == "bytearray":
+                self.throw("TypeError", "unhashable type: 'bytearray'")
+            return True                   # bytes keys are found by equality, like text keys (a snapshot is stored)
         if isinstance(k, (SymInt, SymBool)):
             return True
         if isinstance(k, tuple):
@@ -1598,6 +1602,8 @@ class Engine:
         self.structural(o)
         if hit is None:
             if self.is_symkey(k):
+                if isinstance(k, Bytes):
+                    k = Bytes(list(k.items), False, self.new_serial(), "bytes")
                 o.sym.append([k, v])
             else:
                 o.d[self.hashable(k)] = v
